@@ -54,6 +54,9 @@ structure DState where
   readers : List RSlot := []
   direct : List Nat := []     -- channels returned to direct consumers, in order
   holds : List (Nat × Int) := []  -- registrations held by direct consumers
+  /-- pieces holding unverified blocks of a corrupting peer (AddData without Finalise): not
+      complete, never readable; the next verification of such a piece fails and drops it -/
+  dirty : List Nat := []
   deriving Inhabited
 
 def DState.cfg (s : DState) : Cfg := cfgOfRate s.w.ps s.rate
@@ -190,6 +193,9 @@ def step (s : DState) (ws : List String) : Option (DState × String) :=
     match s.w.data[i]? with
     | some none =>
       if s.w.dead then pure (finish s "done=0") else
+      if s.dirty.contains i then
+        -- the garbage blocks stay (AddData skips blocks it has), the hash fails, the piece is dropped
+        pure (finish { s with dirty := s.dirty.filter (· != i) } "done=0") else
       -- Finalise succeeded, TorHave(i, true) handled by the loop
       let w' := { s.w with data := s.w.data.set i (some (pieceData s i)),
                            rs := torHave s.w.rs i true }
@@ -198,18 +204,26 @@ def step (s : DState) (ws : List String) : Option (DState × String) :=
     | none => none
   | ["rd", "corrupt", i] => do
     let i ← i.toNat?
-    if i < s.w.data.length then pure (finish s "done=0") else none
+    if i < s.w.data.length then pure (finish { s with dirty := s.dirty.filter (· != i) } "done=0") else none
+  | ["rd", "garbage", i] => do
+    let i ← i.toNat?
+    match s.w.data[i]? with
+    | some none =>
+      if s.w.dead || s.dirty.contains i then pure (finish s "ok")
+      else pure (finish { s with dirty := s.dirty ++ [i] } "ok")
+    | some (some _) => pure (finish s "ok")
+    | none => none
   | ["rd", "evict", i] => do
     let i ← i.toNat?
     match s.w.data[i]? with
     | some (some _) =>
       pure (finish { s with w := { s.w with data := s.w.data.set i none } } s!"evicted=[{i}]")
-    | some none => pure (finish s "evicted=[]")
+    | some none => pure (finish { s with dirty := s.dirty.filter (· != i) } "evicted=[]")
     | none => none
   | ["rd", "kill"] =>
     let w' := { s.w with dead := true, data := s.w.data.map (fun _ => none) }
     -- Torrent.requested is not observable any more (`tail` prints map=dead)
-    some (finish { s with w := w' } "ok")
+    some (finish { s with w := w', dirty := [] } "ok")
   | ["rd", "treq", i, p, rq, want] => do
     let i ← i.toNat?; let p ← parseInt p
     let rq := rq == "1"; let want := want == "1"
